@@ -58,6 +58,14 @@ def make_cases(tier, seed):
                 for sign in (1, -1):
                     cases.append({"id": len(cases) + 1, "family": "quad_%s_%s_%s" % ("X" if k < 0 else "O", str(fr).replace(".", "p"), str(fz).replace(".", "p")),
                                   "lobes": [["quadnode", nR // 2 - 2, fr, nZ // 2, fz, k]], "nR": nR, "nZ": nZ, "sign": sign, "psinorm_sol": 1.1, "nx_inter_sep": 0, "notok": 1})
+    # two O-points of which the one nearest the centre of the (non-square, 1 m x 1.4 m) domain in metres is NOT the nearest in
+    # domain-normalised coordinates: the primary O-point is defined by distance (seeded change C19_opoint_normalised_distance)
+    for (nR, nZ) in res[:2]:
+        for sign in (1, -1):
+            for (dr, dz) in [(0.0, 0.0), (0.37, 0.21)]:
+                hR, hZ = 1.0 / (nR - 1), 1.4 / (nZ - 1)
+                cases.append({"id": len(cases) + 1, "family": "two_o_aspect", "lobes": [[1, 1.83 + dr * hR, 0.04 + dz * hZ, 0.22], [0.9, 1.5 + dr * hR, -0.42 + dz * hZ, 0.22]],
+                              "nR": nR, "nZ": nZ, "sign": sign, "psinorm_sol": 1.1, "nx_inter_sep": 0, "notok": 1})
     # tilted, elongated critical points (the mixed second derivative is not zero): quadratic O- and X-points, and a lower single null with a
     # tilted elliptical core
     for (nR, nZ) in res[:2]:
